@@ -500,8 +500,25 @@ func twoReferences() {
 // of the two proxies from the same reference and their first calls.
 func sharedReference() {
 	w := start(false)
-	if _, err := w.sess.Object(w.ref); err != nil {
-		vrt.Failf("harness/first-object", "%v", err)
+	if vrt.ChooseFree(2, "meta-object of the reference: as the server describes it / the interface only") == 1 {
+		// a reference as a stub that only knows its interface would hand it
+		// out: the generic object actions (registerEvent, metaObject...) are
+		// not part of the description
+		w.ref.MetaObject = probe.ProbeMeta()
+	}
+	before := fmt.Sprint(len(w.ref.MetaObject.Methods), len(w.ref.MetaObject.Signals), len(w.ref.MetaObject.Properties))
+	defer func() {
+		if after := fmt.Sprint(len(w.ref.MetaObject.Methods), len(w.ref.MetaObject.Signals), len(w.ref.MetaObject.Properties)); after != before {
+			// not judged (the statement does not speak of it): recorded, because
+			// a reference shared by goroutines is then written concurrently
+			vrt.Flag("object-reference-modified-by-Session.Object")
+		}
+	}()
+	// the connection to the service's endpoint is pooled by a request by name,
+	// so that the two concurrent requests below are the first users of the
+	// reference value
+	if _, err := w.sess.Proxy("Probe", 1); err != nil {
+		vrt.Failf("harness/first-proxy", "%v", err)
 		return
 	}
 	vrt.Quiesce()
